@@ -384,6 +384,9 @@ func runC08(c *eng.Ctx) {
 	nSent := ruleSentinelIdentity(c, "R14.6", []string{cl + "(*Reader).ReadMessage"}, "the reader does not notice that the segment it was reading was replaced by the cleaner: it fails instead of re-opening at its position in the rewritten segment")
 	c.Check(nSent >= 2, "Reader.ReadMessage recognises replaced segments", "", "comparisons with ErrSegmentReplaced / ErrCommitLogReadonly found", "Reader.ReadMessage no longer tells a replaced segment apart")
 
+	c.Rule("R08.6", "K2")
+	ruleReverseReaderSurvivesReplacement(c)
+
 }
 
 func isScanResult(v ssa.Value) bool {
